@@ -143,4 +143,75 @@ theorem prepare_sim {comp : CHeap → VCell → Outcome (CHeap × VCell)} (cl : 
       | atom x => simp [addrFree] at x
     exact ⟨ψ, hh, StackRelK.mono hle h.stack, h.acc.mono hle, h.ep.mono hle, he, rfl, h.bp⟩
 
+/-! ## the stack trace of related states -/
+
+theorem all2_take {ψ : Inj} : ∀ (l l' : List VCell) (n : Nat), l.length = l'.length →
+    (∀ i, i < n → ∀ v v', l[i]? = some v → l'[i]? = some v' → VRel ψ v v') → All2 (VRel ψ) (l.take n) (l'.take n) := by
+  intro l
+  induction l with
+  | nil =>
+    intro l' n hl _
+    cases l' with
+    | nil => simpa using All2.nil
+    | cons _ _ => simp at hl
+  | cons a as ih =>
+    intro l' n hl h
+    cases l' with
+    | nil => simp at hl
+    | cons b bs =>
+      cases n with
+      | zero => simpa using All2.nil
+      | succ n =>
+        simp only [List.take_succ_cons]
+        refine .cons (h 0 (by omega) a b rfl rfl) (ih bs n (by simpa using hl) ?_)
+        intro i hi v v' h1 h2
+        exact h (i + 1) (by omega) v v' (by simpa using h1) (by simpa using h2)
+
+theorem all2_append {α β : Type} {R : α → β → Prop} {l1 l1' l2 l2'} (h1 : All2 R l1 l1') (h2 : All2 R l2 l2') :
+    All2 R (l1 ++ l2) (l1' ++ l2') := by
+  induction h1 with
+  | nil => exact h2
+  | cons a _ ih => exact .cons a ih
+
+theorem all2_reverse {α β : Type} {R : α → β → Prop} {l l'} (h : All2 R l l') : All2 R l.reverse l'.reverse := by
+  induction h with
+  | nil => exact .nil
+  | cons a _ ih =>
+    simp only [List.reverse_cons]
+    exact all2_append ih (.cons a .nil)
+
+def frameOf : VCell → Option Nat
+  | .instrPtr l _ => some l
+  | _ => none
+
+theorem all2_frames {ψ : Inj} {l l' : List VCell} (h : All2 (VRel ψ) l l') :
+    All2 (AddrRel ψ) (l.filterMap frameOf) (l'.filterMap frameOf) := by
+  induction h with
+  | nil => exact .nil
+  | @cons v v' _ _ a _ ih =>
+    cases a with
+    | instrPtr x => simpa [List.filterMap_cons, frameOf] using All2.cons x ih
+    | atom x =>
+      have : frameOf v = none := by
+        cases v <;> first | rfl | simp [addrFree] at x
+      simp only [List.filterMap_cons, this]; exact ih
+    | pair _ _ => simpa [List.filterMap_cons, frameOf] using ih
+    | closure _ _ => simpa [List.filterMap_cons, frameOf] using ih
+    | lexEnvPtr _ => simpa [List.filterMap_cons, frameOf] using ih
+    | envPtr _ => simpa [List.filterMap_cons, frameOf] using ih
+    | ptr _ => simpa [List.filterMap_cons, frameOf] using ih
+
+theorem traceFrames_eq (s : St CHeap) : traceFrames s = (s.stack.cells.take s.stack.sp).reverse.filterMap frameOf := by
+  unfold traceFrames
+  congr 1
+
+/-- the frames of the stack traces of related states are related, innermost first: same length, each pair of
+    code objects related by the injection (the trace the user sees is rendered from these lambdas) -/
+theorem traceFrames_rel {ψ : Inj} {s t : St CHeap} (h : Sim ψ s t) :
+    All2 (AddrRel ψ) (traceFrames s) (traceFrames t) := by
+  rw [traceFrames_eq, traceFrames_eq, ← h.stack.1]
+  refine all2_frames (all2_reverse (all2_take _ _ _ h.stack.2.1 ?_))
+  intro i hi v v' h1 h2
+  exact h.stack.2.2 i (by omega) v v' h1 h2
+
 end Marwood.Lemmas.Good
